@@ -44,20 +44,20 @@ type Ev struct {
 }
 
 const (
-	EvPeerSend  = "peer-send"  // peer wrote a packet to the wire
-	EvPeerRecv  = "peer-recv"  // peer decoded a packet from the broker
-	EvPeerEOF   = "peer-eof"   // peer saw its connection end
-	EvPeerRaw   = "peer-raw"   // peer wrote raw bytes
-	EvBkEnter   = "bk-enter"   // broker called the backend
-	EvBkStart   = "bk-start"   // the call left the simulator's gate and runs in the real backend
-	EvBkCommit  = "bk-commit"  // the backend invoked the ack (inside its critical section)
-	EvBkReturn  = "bk-return"  // backend call returned
+	EvPeerSend  = "peer-send"   // peer wrote a packet to the wire
+	EvPeerRecv  = "peer-recv"   // peer decoded a packet from the broker
+	EvPeerEOF   = "peer-eof"    // peer saw its connection end
+	EvPeerRaw   = "peer-raw"    // peer wrote raw bytes
+	EvBkEnter   = "bk-enter"    // broker called the backend
+	EvBkStart   = "bk-start"    // the call left the simulator's gate and runs in the real backend
+	EvBkCommit  = "bk-commit"   // the backend invoked the ack (inside its critical section)
+	EvBkReturn  = "bk-return"   // backend call returned
 	EvAckRel    = "ack-release" // the broker's own ack closure was invoked
-	EvConnSend  = "conn-send"  // broker entered Send on its transport.Conn
-	EvConnSent  = "conn-sent"  // that Send returned
-	EvConnRecv  = "conn-recv"  // broker's Receive returned
-	EvConnClose = "conn-close" // broker closed its transport.Conn
-	EvLog       = "log"        // Backend.Log
+	EvConnSend  = "conn-send"   // broker entered Send on its transport.Conn
+	EvConnSent  = "conn-sent"   // that Send returned
+	EvConnRecv  = "conn-recv"   // broker's Receive returned
+	EvConnClose = "conn-close"  // broker closed its transport.Conn
+	EvLog       = "log"         // Backend.Log
 	EvFault     = "fault"
 	EvNote      = "note"
 )
@@ -284,10 +284,10 @@ type faultConn struct {
 	idx  int
 	link *simnet.Link
 
-	sends    int
-	recvs    int
-	sentLen  int // bytes of all packets accepted by the inner Send
-	closed   bool
+	sends   int
+	recvs   int
+	sentLen int // bytes of all packets accepted by the inner Send
+	closed  bool
 
 	// faults
 	failSendN    int  // fail the n-th Send ...
